@@ -405,7 +405,14 @@ func (s *Sim) exec(op Op) {
 			m.ReleaseSent = true
 			m.Status = stGone
 			m.RejectReason = "released by the shim"
-			infl.releases[op.Key] = true
+			if op.Fault != "release_any_type" {
+				infl.releases[op.Key] = true
+			} else {
+				// TIMEOUT / PREEMPTED_BY_SCHEDULER from the shim are the last word on an allocation: the core does not
+				// answer them, so an announcement for this key from here on names something the shim no longer has
+				m.RejectReason = "released by the shim with a confirmation type (" + op.Type + ")"
+				m.NoEcho = true
+			}
 			sh.dropObligation(op.Key)
 		}
 		sh.mu.Unlock()
